@@ -177,13 +177,14 @@ CLAIMS = {
              "stated range). Known finding D8 (results before 1970-01-01) is listed in known_findings.json and printed "
              "as KNOWN-FINDING; any failing input with expected result >= 1970 is a violation.",
         tech="Lean 4 theorems over Q (floor/round arithmetic) + exhaustive enumeration digests from the compiled model"),
-    "C13": dict(level=TV, ref="§7 C13",
-        text="33 kernel-checked theorems: every accessor equals the sorted-distinct values / counts of the cells "
+    "C13": dict(level=PV, ref="§7 C13",
+        text="58 kernel-checked theorems: every accessor equals the sorted-distinct values / counts of the cells "
              "(periods, evaluation_dates, dev_lags, fields, metadata, field_cell_counts, field_slice_counts), "
              "isDisjoint_iff_pairwise_nonoverlap (the adjacent test is complete on start-sorted periods), nesting "
              "regular => semi-regular => disjoint, resolution_dvd_all and resolution_greatest, experienceGaps_spec, "
-             "common_keeps_exactly_shared, recombine_diff for attributes and for details as sets; the Metadata-level "
-             "recombination equality is OPEN. Correspondence: accessor dumps vs model and taxonomy booleans vs "
+             "common_keeps_exactly_shared, recombine_diff (common + difference = the slice's metadata, full Metadata "
+             "equality), isSemiRegular_iff_equal_lengths and isRegular_iff_const_spacing against independently written "
+             "Spec definitions, evaluationDate_spec, numSamples_spec; none open. Correspondence: accessor dumps vs model and taxonomy booleans vs "
              "independently written Spec definitions over regular / semi-regular / irregular / erratic layouts.",
         note=COMMON_NOTE + "Month-unit taxonomy compared only where float (in)equalities agree with the exact ones "
              "(guard counts in the evidence).",
